@@ -10,6 +10,7 @@ import Driver.C16
 import Driver.C13
 import Driver.C05
 import Driver.C07
+import Driver.Provider
 open Lean Driver
 
 def handlers : List (String × Handler) := [
@@ -23,7 +24,9 @@ def handlers : List (String × Handler) := [
   ("C16", Driver.C16.handle),
   ("C13", Driver.C13.handle),
   ("C05", Driver.C05.handle),
-  ("C07", Driver.C07.handle)
+  ("C07", Driver.C07.handle),
+  ("C06", Driver.Provider.handle),
+  ("C09", Driver.Provider.handle)
 ]
 
 def processLine (line : String) : String :=
